@@ -810,6 +810,16 @@ class DocTest:
                         print(f'part[{partx}] Importing parent module')
                     try:
                         self._import_module()
+                    except exceptions._pytest.outcomes.Skipped:
+                        # The module itself asks to be skipped (e.g. a
+                        # module level pytest.importorskip): none of its
+                        # doctests can run. Pytest handles the exception,
+                        # the native runner reports the doctest as skipped.
+                        if self.mode == 'pytest':
+                            raise
+                        self._skipped_parts = list(self._parts)
+                        summary = self._post_run(verbose)
+                        return summary
                     except Exception:
                         self.failed_part = '<IMPORT>'
                         self._partfilename = '<doctest:' + self.node + ':pre_import>'
